@@ -1,9 +1,8 @@
 (* C08: the reader produces the fields of the independent RFC 4180 specification [rfc_parse]
    (lexer + six-state machine of Model/Csv.v), for EVERY input byte string - here for
-   single-byte separators and comment characters (',' ';' '|' TAB ...), inputs that do not
-   start with a BOM and do not end in a lone CR.  (Multi-byte separators, the BOM and the
-   final lone CR are covered by the correspondence check: Coq spec = harness reference reader
-   = implementation on every generated input.) *)
+   single-byte separators and comment characters (',' ';' '|' TAB ...) and inputs that do not
+   start with a BOM.  (Multi-byte separators and the BOM are covered by the correspondence
+   check: Coq spec = harness reference reader = implementation on every generated input.) *)
 From Verif Require Import Lib.Base Lib.Utf8 Model.Csv Proofs.CsvBase Proofs.CsvFuel
   Proofs.CsvAccount Proofs.CsvRoundtrip Proofs.CsvChunks.
 From Coq Require Import ZifyBool.
@@ -305,21 +304,58 @@ Proof.
 Qed.
 
 (* how a line ends *)
-Lemma line_end line data : isline line data -> last_is 13 (line ++ data) = false ->
+Lemma line_end line data : isline line data ->
   exists u, nob 10 u /\
     ((line = u ++ [10] /\ last_is 13 u = false /\ len_newline line = 1) \/
      (line = u ++ [13; 10] /\ len_newline line = 2) \/
-     (line = u /\ data = [] /\ last_is 13 u = false /\ len_newline line = 0)).
+     (line = u /\ data = [] /\ len_newline line = 0)).
 Proof.
-  intros [(w & -> & Hw) | [H ->]] Hnc.
+  intros [(w & -> & Hw) | [H ->]].
   - destruct (last_is 13 w) eqn:E.
     + destruct (last_is_split _ _ E) as [u ->]. apply nob_app in Hw as [Hu _].
       exists u. split; [exact Hu|]. right. left. rewrite <- app_assoc. split; [reflexivity|].
       apply len_newline_crlf.
     + exists w. split; [exact Hw|]. left. split; [reflexivity|]. split; [exact E|]. apply len_newline_lf'. exact E.
-  - rewrite app_nil_r in Hnc. exists line. split; [exact H|]. right. right.
+  - exists line. split; [exact H|]. right. right.
     repeat split; auto. apply len_newline_no_lf. exact H.
 Qed.
+
+(* at EOF readLine drops one final CR of the last line: the specification sees the input
+   without it *)
+Definition sc (d : bytes) : bytes := if last_is 13 d then removelast d else d.
+
+Lemma sc_nil : sc [] = [].
+Proof. reflexivity. Qed.
+
+Lemma sc_cut data l d : cut_nl data = Some (l, d) -> sc data = l ++ sc d.
+Proof.
+  intros H. destruct (cut_nl_some_inv _ _ _ H) as (u & -> & _ & ->). unfold sc.
+  destruct d as [|x d].
+  - rewrite app_nil_r. rewrite last_is_snoc. cbn. rewrite app_nil_r. reflexivity.
+  - rewrite last_is_app by discriminate. destruct (last_is 13 (x :: d)); [|reflexivity].
+    apply removelast_app. discriminate.
+Qed.
+
+Lemma read_line_sc data :
+  read_line data true = match cut_nl data with
+                        | Some (l, d) => Some (l, d, 0)
+                        | None => Some (sc data, [], zlen data - zlen (sc data))
+                        end.
+Proof.
+  unfold read_line, sc. destruct (cut_nl data) as [[l d]|]; [reflexivity|].
+  destruct (last_is 13 data) eqn:E.
+  - pose proof (zlen_removelast data (last_is_nonempty _ _ E)). do 2 f_equal. lia.
+  - do 2 f_equal. lia.
+Qed.
+
+Lemma nob_removelast b (l : bytes) : nob b l -> nob b (removelast l).
+Proof.
+  induction l as [|x [|y l] IH]; intros H; cbn [removelast]; try apply nob_nil.
+  apply nob_cons in H as [Hx H]. apply nob_cons. split; [exact Hx | apply IH; exact H].
+Qed.
+
+Lemma nob10_sc data : nob 10 data -> nob 10 (sc data).
+Proof. intros H. unfold sc. destruct (last_is 13 data); [apply nob_removelast|]; exact H. Qed.
 
 Lemma len_newline_all l : len_newline l = zlen l -> l = [] \/ l = [10] \/ l = [13; 10].
 Proof.
@@ -403,24 +439,23 @@ Proof. destruct u; [congruence | auto]. Qed.
 
 Lemma parse_sim : forall f,
   (forall line data adv done cr adv' fields cr',
-     isline line data -> last_is 13 (line ++ data) = false ->
+     isline line data ->
      parse_field c true f line data adv done cr = PDone adv' fields cr' ->
      exists dataF, suffix_of dataF data /\ adv' + zlen dataF = adv + zlen line + zlen data /\
-       run (RField, [], done) (L (line ++ data)) = fields :: run RL0 (L dataF)) /\
+       run (RField, [], done) (L (line ++ sc data)) = fields :: run RL0 (L (sc dataF))) /\
   (forall line data adv cur done cr adv' fields cr',
-     isline line data -> last_is 13 (line ++ data) = false ->
+     isline line data ->
      parse_quoted c true f line data adv cur done cr = PDone adv' fields cr' ->
      exists dataF, suffix_of dataF data /\ adv' + zlen dataF = adv + zlen line + zlen data /\
-       run (RQuo, cur, done) (L (line ++ data)) = fields :: run RL0 (L dataF)).
+       run (RQuo, cur, done) (L (line ++ sc data)) = fields :: run RL0 (L (sc dataF))).
 Proof.
   destruct sep_facts as (S10 & S13 & S34 & S0 & Sge).
-  induction f as [|f [IHf IHq]]; split; intros until cr'; intros Hl Hnc H; try discriminate.
+  induction f as [|f [IHf IHq]]; split; intros until cr'; intros Hl H; try discriminate.
   - (* parse_field *)
     rewrite parse_field_S in H. destruct (starts_quote line) eqn:Q.
     + destruct (starts_quote_inv _ Q) as [t ->]. rewrite zdrop_1_cons in H.
       assert (Hl' : isline t data) by (apply (isline_suffix [34]); [exact Hl | repeat constructor; lia]).
-      assert (Hnc' : last_is 13 (t ++ data) = false) by (apply (nc_suffix [34]); exact Hnc).
-      destruct (IHq _ _ _ _ _ _ _ _ _ Hl' Hnc' H) as (dF & Hs & Ha & Hr). exists dF.
+      destruct (IHq _ _ _ _ _ _ _ _ _ Hl' H) as (dF & Hs & Ha & Hr). exists dF.
       split; [exact Hs|]. split; [zl; lia|]. cbn [app]. rewrite lex_byte by (try lia; discriminate).
       rewrite tokb_quote. exact Hr.
     + rewrite sep_bytes_eq, cut_sub_byte in H. destruct (cut_byte sep line) as [[field rest]|] eqn:E.
@@ -429,9 +464,7 @@ Proof.
         assert (Hl' : isline rest data).
         { apply (isline_suffix (field ++ [sep])); [rewrite <- app_assoc; exact Hl|].
           apply nob_app. split; [exact H10 | repeat constructor; lia]. }
-        assert (Hnc' : last_is 13 (rest ++ data) = false).
-        { apply (nc_suffix (field ++ [sep])). rewrite <- !app_assoc in *. exact Hnc. }
-        destruct (IHf _ _ _ _ _ _ _ _ Hl' Hnc' H) as (dF & Hs & Ha & Hr). exists dF.
+        destruct (IHf _ _ _ _ _ _ _ _ Hl' H) as (dF & Hs & Ha & Hr). exists dF.
         split; [exact Hs|]. split; [rewrite sep_len_1 in Ha; zl; lia|].
         rewrite <- app_assoc. cbn [app]. rewrite lex_plain; [|exact H10|intros _; cbn; lia].
         rewrite lex_byte by (try lia; intros; lia). rewrite tokb_sep.
@@ -439,7 +472,7 @@ Proof.
         -- exact Hr.
         -- destruct field as [|x field]; [reflexivity|]. exact Q.
       * apply cut_byte_none_inv in E. injection H as <- <- <-.
-        destruct (line_end line data Hl Hnc) as (u & Hu & [(-> & Hcr & Hln) | [(-> & Hln) | (-> & -> & Hcr & Hln)]]);
+        destruct (line_end line data Hl) as (u & Hu & [(-> & Hcr & Hln) | [(-> & Hln) | (-> & -> & Hln)]]);
           rewrite Hln.
         -- exists data. split; [apply suffix_refl|]. split; [lia|].
            apply nob_app in E as [Eu _].
@@ -456,7 +489,7 @@ Proof.
               symmetry. apply ztake_app_len.
            ++ destruct u; [reflexivity | exact Q].
         -- exists []. split; [apply suffix_refl|]. split; [lia|].
-           rewrite app_nil_r. rewrite <- (app_nil_r u) at 1. rewrite lex_plain by (auto; intros; reflexivity).
+           rewrite sc_nil. rewrite lex_plain by (auto; intros; reflexivity).
            cbn [lex]. rewrite run_field_plain; [|exact Hu|exact E|exact Q|intros ts' X; discriminate].
            cbn [run3 RL0]. do 3 f_equal. rewrite Z.sub_0_r. symmetry. apply ztake_all. lia.
   - (* parse_quoted *)
@@ -466,8 +499,6 @@ Proof.
       assert (Hl1 : isline line1 data).
       { apply (isline_suffix (pre ++ [34])); [rewrite <- app_assoc; exact Hl|].
         apply nob_app. split; [exact H10 | repeat constructor; lia]. }
-      assert (Hnc1 : last_is 13 (line1 ++ data) = false).
-      { apply (nc_suffix (pre ++ [34])). rewrite <- !app_assoc in *. exact Hnc. }
       (* the machine has read up to and including the quote *)
       assert (Hrun : forall ts, run (RQuo, cur, done) (map tokb pre ++ TQ :: ts) = run (RAfterQ, cur ++ pre, done) ts).
       { intros ts. rewrite run_quo_plain by assumption. reflexivity. }
@@ -476,15 +507,13 @@ Proof.
       destruct (Z.eqb_spec (next_rune line1) 34) as [R34|N34].
       { destruct (next_rune_34 _ R34) as [t ->]. rewrite zdrop_1_cons in H.
         assert (Hl' : isline t data) by (apply (isline_suffix [34]); [exact Hl1 | repeat constructor; lia]).
-        assert (Hnc' : last_is 13 (t ++ data) = false) by (apply (nc_suffix [34]); exact Hnc1).
-        destruct (IHq _ _ _ _ _ _ _ _ _ Hl' Hnc' H) as (dF & Hs & Ha & Hr). exists dF.
+        destruct (IHq _ _ _ _ _ _ _ _ _ Hl' H) as (dF & Hs & Ha & Hr). exists dF.
         split; [exact Hs|]. split; [zl; lia|]. cbn [app]. rewrite lex_byte by (try lia; discriminate).
         rewrite tokb_quote. exact Hr. }
       destruct (Z.eqb_spec (next_rune line1) sep) as [Rs|Ns].
       { destruct (next_rune_sep _ Rs) as [t ->]. rewrite sep_len_1, zdrop_1_cons in H.
         assert (Hl' : isline t data) by (apply (isline_suffix [sep]); [exact Hl1 | repeat constructor; lia]).
-        assert (Hnc' : last_is 13 (t ++ data) = false) by (apply (nc_suffix [sep]); exact Hnc1).
-        destruct (IHf _ _ _ _ _ _ _ _ Hl' Hnc' H) as (dF & Hs & Ha & Hr). exists dF.
+        destruct (IHf _ _ _ _ _ _ _ _ Hl' H) as (dF & Hs & Ha & Hr). exists dF.
         split; [exact Hs|]. split; [zl; lia|]. cbn [app]. rewrite lex_byte by (try lia; intros; lia).
         rewrite tokb_sep. exact Hr. }
       destruct (Z.eqb_spec (len_newline line1) (zlen line1)) as [Enl|Nnl].
@@ -495,7 +524,7 @@ Proof.
         - exists data. split; [apply suffix_refl|]. split; [zl; lia|]. reflexivity.
         - exists data. split; [apply suffix_refl|]. split; [zl; lia|]. cbn [app]. rewrite lex_crlf. reflexivity. }
       (* bare quote *)
-      destruct (IHq _ _ _ _ _ _ _ _ _ Hl1 Hnc1 H) as (dF & Hs & Ha & Hr). exists dF.
+      destruct (IHq _ _ _ _ _ _ _ _ _ Hl1 H) as (dF & Hs & Ha & Hr). exists dF.
       split; [exact Hs|]. split; [zl; lia|]. rewrite <- Hr.
       destruct line1 as [|x t]; [cbn in Nnl; lia|].
       assert (X34 : x <> 34) by (intros ->; apply N34; apply next_rune_lt128; lia).
@@ -505,7 +534,7 @@ Proof.
         - destruct w as [|y w]; [injection Ew as ->; cbn in Nnl; lia|].
           injection Ew as <- _. apply nob_cons in Hw as [Hw _]. congruence.
         - apply nob_cons in Hw as [Hw _]. congruence. }
-      assert (X13 : x = 13 -> starts10 (t ++ data) = false).
+      assert (X13 : x = 13 -> starts10 (t ++ sc data) = false).
       { intros ->. destruct t as [|y t].
         - destruct Hl1 as [(w & Ew & _) | [_ ->]]; [|reflexivity].
           destruct w as [|? [|? ?]]; discriminate.
@@ -520,34 +549,41 @@ Proof.
     + apply cut_byte_none_inv in E. destruct line as [|x line].
       * injection H as <- <- <-. destruct Hl as [(w & Ew & _) | [_ ->]]; [destruct w; discriminate|].
         exists []. split; [apply suffix_refl|]. split; [zl; lia|]. reflexivity.
-      * cbv zeta in H. set (ln := x :: line) in *.
-        assert (Hncd : last_is 13 data = false) by (apply (nc_suffix ln); exact Hnc).
-        rewrite read_line_true in H by exact Hncd.
-        assert (Hnc' : last_is 13 (fl1 data ++ fl2 data) = false) by (rewrite fl_join; exact Hncd).
-        assert (Hzd : zlen data = zlen (fl1 data) + zlen (fl2 data)) by (rewrite <- (fl_join data) at 1; apply zlen_app).
-        destruct (line_end ln data Hl Hnc) as (u & Hu & [(Eu & Hcr & Hln) | [(Eu & Hln) | (Eu & Ed & Hcr & Hln)]]);
-          rewrite Hln in H; cbn [Z.eqb Pos.eqb] in H.
-        -- destruct (IHq _ _ _ _ _ _ _ _ _ (isline_fl data) Hnc' H) as (dF & [p Hp] & Ha & Hr). exists dF.
-           split; [exists (fl1 data ++ p); rewrite <- app_assoc, <- Hp, fl_join; reflexivity|].
-           split; [lia|].
-           rewrite fl_join in Hr. rewrite Eu in *. apply nob_app in E as [Eq _].
-           rewrite <- app_assoc. cbn [app]. rewrite lex_plain by (auto; congruence). rewrite lex_lf.
-           rewrite run_quo_plain by assumption. cbn [run3 rstep3]. rewrite <- Hr.
-           rewrite <- !app_assoc. reflexivity.
-        -- destruct (IHq _ _ _ _ _ _ _ _ _ (isline_fl data) Hnc' H) as (dF & [p Hp] & Ha & Hr). exists dF.
-           split; [exists (fl1 data ++ p); rewrite <- app_assoc, <- Hp, fl_join; reflexivity|].
-           split; [lia|].
-           rewrite fl_join in Hr. rewrite Eu in *. apply nob_app in E as [Eq _].
-           rewrite <- app_assoc. cbn [app]. rewrite lex_plain by (auto; intros; reflexivity). rewrite lex_crlf.
-           rewrite run_quo_plain by assumption. cbn [run3 rstep3]. rewrite <- Hr.
-           replace (zlen (u ++ [13; 10]) - 2) with (zlen u) by (zl; lia). rewrite ztake_app_len.
-           rewrite <- !app_assoc. reflexivity.
-        -- destruct (IHq _ _ _ _ _ _ _ _ _ (isline_fl data) Hnc' H) as (dF & [p Hp] & Ha & Hr). exists dF.
-           split; [exists (fl1 data ++ p); rewrite <- app_assoc, <- Hp, fl_join; reflexivity|].
-           split; [lia|].
-           rewrite fl_join in Hr. rewrite Ed in *. rewrite app_nil_r. rewrite Eu in *.
-           rewrite <- (app_nil_r u) at 1. rewrite lex_plain by (auto; intros; reflexivity).
-           cbn [lex] in *. rewrite run_quo_plain by assumption. exact Hr.
+      * cbv zeta in H. set (ln := x :: line) in *. rewrite read_line_sc in H.
+        (* the machine side of "copy the line, go on with the next one" *)
+        assert (Hcopy : forall cur1 X,
+                  cur1 = (if len_newline ln =? 2 then cur ++ ztake (zlen ln - 2) ln ++ [10] else cur ++ ln) ->
+                  (data = [] -> X = []) ->
+                  run (RQuo, cur, done) (L (ln ++ X)) = run (RQuo, cur1, done) (L X)).
+        { intros cur1 X -> HX.
+          destruct (line_end ln data Hl) as (u & Hu & [(Eu & Hcr & Hln) | [(Eu & Hln) | (Eu & Ed & Hln)]]);
+            rewrite Hln; cbn [Z.eqb Pos.eqb]; rewrite Eu in *.
+          - apply nob_app in E as [Eq _]. rewrite <- app_assoc. cbn [app].
+            rewrite lex_plain by (auto; congruence). rewrite lex_lf.
+            rewrite run_quo_plain by assumption. cbn [run3 rstep3]. rewrite <- !app_assoc. reflexivity.
+          - apply nob_app in E as [Eq _]. rewrite <- app_assoc. cbn [app].
+            rewrite lex_plain by (auto; intros; reflexivity). rewrite lex_crlf.
+            rewrite run_quo_plain by assumption. cbn [run3 rstep3].
+            replace (zlen (u ++ [13; 10]) - 2) with (zlen u) by (zl; lia). rewrite ztake_app_len.
+            rewrite <- !app_assoc. reflexivity.
+          - rewrite (HX Ed). rewrite lex_plain by (auto; intros; reflexivity).
+            cbn [lex]. rewrite run_quo_plain by assumption. reflexivity. }
+        destruct (cut_nl data) as [[l d]|] eqn:Cn.
+        -- destruct (cut_nl_some_inv _ _ _ Cn) as (w & El & Hw & Ed).
+           assert (Hl' : isline l d) by (left; eauto).
+           destruct (IHq _ _ _ _ _ _ _ _ _ Hl' H) as (dF & [p Hp] & Ha & Hr). exists dF.
+           split; [exists (l ++ p); rewrite Ed, Hp, <- app_assoc; reflexivity|].
+           split; [rewrite Ed; zl; lia|].
+           rewrite (sc_cut _ _ _ Cn). rewrite (Hcopy _ (l ++ sc d) eq_refl).
+           ++ exact Hr.
+           ++ intros Ed'. rewrite Ed' in Cn. discriminate.
+        -- assert (Hl' : isline (sc data) []).
+           { right. split; [apply nob10_sc, cut_nl_none_inv; exact Cn | reflexivity]. }
+           destruct (IHq _ _ _ _ _ _ _ _ _ Hl' H) as (dF & Hs & Ha & Hr). apply suffix_of_nil in Hs. subst dF.
+           exists []. split; [apply suffix_nil|]. split; [rewrite zlen_nil in *; lia|].
+           rewrite sc_nil, app_nil_r in Hr. rewrite (Hcopy _ (sc data) eq_refl).
+           ++ exact Hr.
+           ++ intros ->. reflexivity.
 Qed.
 
 (* ---- the first loop: comment and blank lines ------------------------------------ *)
@@ -578,31 +614,39 @@ Proof.
   - injection H as <- _. eauto.
 Qed.
 
-Lemma skip_sim : forall f data adv skip, last_is 13 data = false ->
+(* what readLine returns at EOF, and what the specification sees of it *)
+Lemma read_line_true_spec data : exists l d inc,
+  read_line data true = Some (l, d, inc) /\ isline l d /\ sc data = l ++ sc d.
+Proof.
+  rewrite read_line_sc. destruct (cut_nl data) as [[l d]|] eqn:Cn.
+  - exists l, d, 0. split; [reflexivity|]. split; [|apply sc_cut; exact Cn].
+    destruct (cut_nl_some_inv _ _ _ Cn) as (w & -> & Hw & _). left. eauto.
+  - exists (sc data), [], (zlen data - zlen (sc data)). split; [reflexivity|].
+    split; [|rewrite sc_nil, app_nil_r; reflexivity].
+    right. split; [apply nob10_sc, cut_nl_none_inv; exact Cn | reflexivity].
+Qed.
+
+Lemma skip_sim : forall f data adv skip,
   match skip_lines c true f data adv skip with
   | SkLine line data' adv' skip' =>
-      isline line data' /\ last_is 13 (line ++ data') = false /\
-      run RL0 (L data) = run (RField, [], []) (L (line ++ data'))
-  | SkNeed => run RL0 (L data) = []
+      isline line data' /\ run RL0 (L (sc data)) = run (RField, [], []) (L (line ++ sc data'))
+  | SkNeed => run RL0 (L (sc data)) = []
   | SkFuel => True
   end.
 Proof.
   destruct sep_facts as (S10 & S13 & S34 & S0 & Sge). destruct com_facts as (C10 & C13 & C34 & Cr).
-  induction f as [|f IH]; intros data adv skip Hnc; [exact I|].
-  rewrite skip_lines_S. rewrite read_line_true by exact Hnc. cbv zeta.
-  pose proof (isline_fl data) as Hl. pose proof (fl_join data) as Hj.
-  assert (Hnc2 : last_is 13 (fl2 data) = false) by (apply (nc_suffix (fl1 data)); rewrite Hj; exact Hnc).
-  assert (Hncj : last_is 13 (fl1 data ++ fl2 data) = false) by (rewrite Hj; exact Hnc).
-  destruct (Z.eqb_spec (zlen (fl1 data)) 0) as [Z0|Z0].
-  { apply zlen_0_nil in Z0. apply fl1_nil in Z0. subst data. reflexivity. }
-  replace (L data) with (L (fl1 data ++ fl2 data)) by (rewrite Hj; reflexivity).
-  destruct (negb (com =? 0) && (next_rune (fl1 data) =? com)) eqn:Cm.
+  induction f as [|f IH]; intros data adv skip; [exact I|].
+  rewrite skip_lines_S. destruct (read_line_true_spec data) as (l & d & inc & -> & Hl & Hsc). cbv zeta.
+  rewrite Hsc.
+  destruct (Z.eqb_spec (zlen l) 0) as [Z0|Z0].
+  { apply zlen_0_nil in Z0. subst l. destruct Hl as [(w & Ew & _) | [_ ->]]; [destruct w; discriminate|]. reflexivity. }
+  destruct (negb (com =? 0) && (next_rune l =? com)) eqn:Cm.
   { (* comment line *)
     apply andb_true_iff in Cm as [Cm0 Cm1]. apply negb_true_iff in Cm0. apply Z.eqb_neq in Cm0. apply Z.eqb_eq in Cm1.
     destruct (next_rune_com _ Cm0 Cm1) as [t Et].
-    specialize (IH (fl2 data) (adv + 0 + zlen (fl1 data)) (skip + zlen (fl1 data)) Hnc2).
-    assert (E : run RL0 (L (fl1 data ++ fl2 data)) = run RL0 (L (fl2 data))).
-    { destruct (line_end _ _ Hl Hncj) as (u & Hu & [(Eu & Hcr & _) | [(Eu & _) | (Eu & Ed & Hcr & _)]]).
+    specialize (IH d (adv + inc + zlen l) (skip + zlen l)).
+    assert (E : run RL0 (L (l ++ sc d)) = run RL0 (L (sc d))).
+    { destruct (line_end _ _ Hl) as (u & Hu & [(Eu & Hcr & _) | [(Eu & _) | (Eu & Ed & _)]]).
       - rewrite Et in Eu. destruct (head_of_u _ _ _ _ Eu ltac:(auto) C10 C13) as [u' ->].
         rewrite Et, Eu. rewrite <- app_assoc. cbn [app]. rewrite lex_byte by (auto; intros; congruence).
         rewrite tokb_com by exact Cm0. cbn [run3 rstep3 RL0].
@@ -615,33 +659,33 @@ Proof.
         apply nob_cons in Hu as [_ Hu]. rewrite lex_plain by (auto; intros; reflexivity).
         rewrite lex_crlf. rewrite run_comment_plain. reflexivity.
       - rewrite Et in Eu. rewrite <- (app_nil_r u) in Eu. destruct (head_of_u _ _ _ _ Eu ltac:(auto) C10 C13) as [u' ->].
-        rewrite app_nil_r in Eu. rewrite Ed, app_nil_r, Et, Eu. cbn [app]. rewrite lex_byte by (auto; intros; congruence).
+        rewrite app_nil_r in Eu. rewrite Ed, sc_nil, app_nil_r, Et, Eu. cbn [app]. rewrite lex_byte by (auto; intros; congruence).
         rewrite tokb_com by exact Cm0. cbn [run3 rstep3 RL0].
         apply nob_cons in Hu as [_ Hu]. rewrite <- (app_nil_r u'). rewrite lex_plain by (auto; intros; reflexivity).
         cbn [lex]. rewrite run_comment_plain. reflexivity. }
-    destruct (skip_lines c true f (fl2 data) (adv + 0 + zlen (fl1 data)) (skip + zlen (fl1 data))) as [| |l d a k];
+    destruct (skip_lines c true f d (adv + inc + zlen l) (skip + zlen l)) as [| |l' d' a k];
       [rewrite E; exact IH | exact I |].
-    destruct IH as (I1 & I2 & I3). rewrite E. auto. }
-  destruct (Z.eqb_spec (zlen (fl1 data)) (len_newline (fl1 data))) as [Bl|Bl].
+    destruct IH as (I1 & I3). rewrite E. auto. }
+  destruct (Z.eqb_spec (zlen l) (len_newline l)) as [Bl|Bl].
   { (* blank line *)
-    specialize (IH (fl2 data) (adv + 0 + zlen (fl1 data)) (skip + zlen (fl1 data)) Hnc2).
-    assert (E : run RL0 (L (fl1 data ++ fl2 data)) = run RL0 (L (fl2 data))).
+    specialize (IH d (adv + inc + zlen l) (skip + zlen l)).
+    assert (E : run RL0 (L (l ++ sc d)) = run RL0 (L (sc d))).
     { symmetry in Bl. destruct (len_newline_all _ Bl) as [E | [E | E]]; rewrite E in *.
       - cbn in Z0. lia.
       - reflexivity.
       - cbn [app]. rewrite lex_crlf. reflexivity. }
-    destruct (skip_lines c true f (fl2 data) (adv + 0 + zlen (fl1 data)) (skip + zlen (fl1 data))) as [| |l d a k];
+    destruct (skip_lines c true f d (adv + inc + zlen l) (skip + zlen l)) as [| |l' d' a k];
       [rewrite E; exact IH | exact I |].
-    destruct IH as (I1 & I2 & I3). rewrite E. auto. }
+    destruct IH as (I1 & I3). rewrite E. auto. }
   (* a record starts here *)
-  split; [exact Hl|]. split; [exact Hncj|].
-  destruct (fl1 data) as [|x t] eqn:El; [cbn in Z0; lia|].
+  split; [exact Hl|].
+  destruct l as [|x t] eqn:El; [cbn in Z0; lia|].
   assert (X10 : x <> 10).
   { intros ->. destruct Hl as [(w & Ew & Hw) | [Hw _]].
     - destruct w as [|y w]; [injection Ew as ->; cbn in Bl; lia|].
       injection Ew as <- _. apply nob_cons in Hw as [Hw _]. congruence.
     - apply nob_cons in Hw as [Hw _]. congruence. }
-  assert (X13 : x = 13 -> starts10 (t ++ fl2 data) = false).
+  assert (X13 : x = 13 -> starts10 (t ++ sc d) = false).
   { intros ->. destruct t as [|y t].
     - destruct Hl as [(w & Ew & _) | [_ ->]]; [|reflexivity]. destruct w as [|? [|? ?]]; discriminate.
     - cbn. destruct (Z.eqb_spec y 10) as [->|]; [|reflexivity]. exfalso.
@@ -682,25 +726,24 @@ Lemma zdrop_suffix (p d : bytes) : zdrop (zlen p) (p ++ d) = d.
 Proof. apply zdrop_app_len. Qed.
 
 (* the whole-input reader produces the fields of the specification machine *)
-Lemma read_all_rfc : forall f s data, nobom s data -> last_is 13 data = false ->
-  (length data < f)%nat ->
-  map ev_fields (read_all f c s data) = run RL0 (L data).
+Lemma read_all_rfc : forall f s data, nobom s data -> (length data < f)%nat ->
+  map ev_fields (read_all f c s data) = run RL0 (L (sc data)).
 Proof.
-  induction f as [|f IH]; intros s data Hb Hnc Hf; [lia|].
+  induction f as [|f IH]; intros s data Hb Hf; [lia|].
   cbn [read_all]. rewrite scan_nobom by exact Hb. cbn [andb].
   destruct (Z.eqb_spec (zlen data) 0) as [Z0|Z0].
   { apply zlen_0_nil in Z0. subst data. reflexivity. }
-  pose proof (skip_sim (S (length data)) data 0 0 Hnc) as Hsk.
+  pose proof (skip_sim (S (length data)) data 0 0) as Hsk.
   destruct (skip_lines c true (S (length data)) data 0 0) as [| |line d2 adv skip] eqn:Sk.
   - cbn [map]. symmetry. exact Hsk.
   - exfalso. eapply skip_enough; [|exact Sk]. lia.
-  - destruct Hsk as (Hl & Hncl & Hrun).
+  - destruct Hsk as (Hl & Hrun).
     pose proof (skip_line_nonempty _ _ _ _ _ _ _ _ _ _ Sk) as Hlne.
     pose proof (skip_acct c true _ _ _ _ _ _ _ _ Sk) as ([p2 Hp2] & Sa & S1 & S2).
     pose proof (skip_lines_size _ _ _ _ _ _ _ _ _ _ Sk) as Hsz.
     destruct (parse_field c true (S (length data)) line d2 adv [] false) as [|adv' fields cr|] eqn:P.
     + exfalso. eapply (proj1 (parse_true_no_need _)). exact P.
-    + destruct (proj1 (parse_sim _) _ _ _ _ _ _ _ _ Hl Hncl P) as (dF & [p Hp] & Ha & Hr).
+    + destruct (proj1 (parse_sim _) _ _ _ _ _ _ _ _ Hl P) as (dF & [p Hp] & Ha & Hr).
       assert (Hd : data = (p2 ++ p) ++ dF) by (rewrite Hp2, Hp, <- app_assoc; reflexivity).
       assert (Hzd : zlen data = zlen (p2 ++ p) + zlen dF) by (rewrite Hd at 1; apply zlen_app).
       assert (Hzd2 : zlen d2 = zlen p + zlen dF) by (rewrite Hp at 1; apply zlen_app).
@@ -708,10 +751,9 @@ Proof.
       pose proof (zlen_nonneg p) as Hpp. pose proof (zlen_nonneg p2) as Hpp2. pose proof (zlen_nonneg dF) as HdF.
       assert (Hpos : 1 <= zlen (p2 ++ p)) by lia.
       assert (Hnext : forall s', st_noBOM s' = true ->
-                map ev_fields (read_all f c s' (zdrop adv' data)) = run RL0 (L dF)).
+                map ev_fields (read_all f c s' (zdrop adv' data)) = run RL0 (L (sc dF))).
       { intros s' Hs'. rewrite Hadv. rewrite Hd at 1. rewrite zdrop_suffix. apply IH.
         - left. exact Hs'.
-        - apply (nc_suffix (p2 ++ p)). rewrite <- Hd. exact Hnc.
         - rewrite Hd in Hf. rewrite app_length in Hf. unfold zlen in Hpos. lia. }
       rewrite Hrun, Hr.
       destruct ((st_row s =? 0) && c_header c).
@@ -727,10 +769,10 @@ End Ascii.
 Theorem reader_is_rfc c data :
   valid_sep (c_sep c) -> c_sep c < 128 ->
   (c_comment c = 0 \/ (valid_sep (c_comment c) /\ c_comment c < 128)) -> c_sep c <> c_comment c ->
-  prefix_of bom data = false -> last_is 13 data = false ->
+  prefix_of bom data = false ->
   map ev_fields (read_file c data) = rfc_parse (c_sep c) (c_comment c) data.
 Proof.
-  intros Hv H128 Hc Hne Hb Hnc. unfold read_file.
+  intros Hv H128 Hc Hne Hb. unfold read_file.
   rewrite (read_all_rfc c Hv H128 Hc Hne) by (auto; right; exact Hb).
-  unfold rfc_parse, rfc_records. rewrite Hb, Hnc. rewrite run3_ok. reflexivity.
+  unfold rfc_parse, rfc_records. rewrite Hb. rewrite run3_ok. reflexivity.
 Qed.
